@@ -30,8 +30,8 @@ ASSUMPTIONS = [
     "vt/shims stand in for flask_login, sqlalchemy_jsonfield, dotenv, netifaces; harness-controlled clock",
     "TESTING=False, PROPAGATE_EXCEPTIONS=False: an unhandled exception becomes a 500 and is recorded via "
     "got_request_exception",
-    "a request still running after 10 s (normal requests take 2-150 ms) is interrupted and re-run once alone; if it "
-    "again exceeds the limit it is reported as running without (practical) bound",
+    "a request still running after 10 s (normal requests take 2-150 ms) is interrupted and re-run once with a limit of "
+    "90 s; if it again exceeds the limit it is reported as running without (practical) bound",
     "5xx is legitimate only when the request itself carries an error-injection option addressing it",
 ]
 WATCHDOG_S = 10
@@ -111,8 +111,10 @@ def guarded_request(env, method, url, **kw):
     from dashlive.server import models
     old = signal.signal(signal.SIGALRM, _alarm)
     try:
+        # second attempt with a limit nine times as long: a request that is merely slow because all cores are busy
+        # (thorough tiers run 16 shards) must not be taken for one that does not come back
         for attempt in (0, 1):
-            signal.setitimer(signal.ITIMER_REAL, WATCHDOG_S)
+            signal.setitimer(signal.ITIMER_REAL, WATCHDOG_S if attempt == 0 else 9 * WATCHDOG_S)
             try:
                 r = env.request(method, url, **kw)
                 signal.setitimer(signal.ITIMER_REAL, 0)
@@ -210,7 +212,7 @@ def check_surface(case) -> Outcome:
     out.cls("rule:" + rule.endpoint, "role:" + role, "method:" + method)
     optnames = "+".join(sorted({n for n, _ in case["opts"]}))[:60]
     if state == "unbounded":
-        out.fail(f"unbounded/{rule.endpoint}/{optnames}", f"{method} {url[:400]} as {role}: still running after {WATCHDOG_S}s twice")
+        out.fail(f"unbounded/{rule.endpoint}/{optnames}", f"{method} {url[:400]} as {role}: still running after {WATCHDOG_S}s and again after {9 * WATCHDOG_S}s")
         return out
     if r.exc is not None and "Install Flask with the 'async' extra" in str(r.exc):
         out.trivial = "async-view-unavailable-in-this-environment"      # asgiref is not installed in /venv
@@ -414,6 +416,9 @@ class Mp4Fuzz(Engine):
                 from ..runner import HarnessError
                 raise HarnessError(f"atheris child produced no statistics (rc={r.returncode}): {r.stderr.decode(errors='replace')[-1500:]}")
             ctx.stats.notes.setdefault("fuzz_executions", __import__("collections").Counter())["seeded" if seeded else "empty-corpus"] += stats.get("n", 0)
+            # every execution of the fuzz target ran the oracle: they are evaluations of this run (the recorded cases
+            # below are only the corpus entries and the inputs that tripped the oracle)
+            ctx.stats.evaluations += int(stats.get("n", 0))
             ctx.stats.notes.setdefault("fuzz_outcomes", __import__("collections").Counter()).update(
                 {"parsed": stats.get("parsed", 0), "raised": stats.get("raised", 0)})
             files = sorted((Path(wd) / "hits").glob("*.bin")) + sorted((Path(wd) / "corpus").glob("*"))
